@@ -220,7 +220,7 @@ fn format12_mappings() {
     }
 }
 
-//@ harness subheader_contains kind=complete fns=SubHeader::contains tier=off
+//@ harness subheader_contains kind=complete fns=SubHeader::contains tier=quick
 #[kani::proof]
 fn subheader_contains() {
     // cmap format 2 sub-header: the codes firstCode .. firstCode + entryCount - 1; any field values, no panic
